@@ -401,8 +401,26 @@ def make_from_params(rng, order):
     elif scale == "scale_tril":
         kw["scale_tril"] = L
     else:
-        extra = rng.choice([0, 0, 1, 2]) if loc != "info_vec" else rng.choice([0, 1])
-        Pm = np.concatenate([L, dy_array(rng, bshape + (dim, extra))], -1) if extra else L
+        # prec_sqrt accepts ANY dim x rank factor S (precision = S S'): lower triangular, column-permuted / sign-flipped
+        # (orthogonal times triangular), upper triangular, dense generic; then optionally widened or narrowed
+        style = rng.choice(["tril", "colperm", "upper", "dense", "dense"]) if dim >= 2 else "tril"
+        S = L
+        if style == "colperm":
+            perm = list(range(dim))
+            rng.shuffle(perm)
+            signs = np.array([rng.choice([-1.0, 1.0]) for _ in range(dim)])
+            S = L[..., :, perm] * signs
+        elif style == "upper":
+            S = np.swapaxes(L, -1, -2).copy()
+        elif style == "dense":
+            U = np.triu(dy_array(rng, bshape + (dim, dim), pool=[-1, -0.5, 0, 0.5, 1]), 1)
+            cand = L + U
+            ok = all(abs(mat_det([[F(float(v)) for v in row] for row in cand[idx]])) >= F(1, 4)
+                     for idx in itertools.product(*[range(n) for n in bshape]))
+            S = cand if ok else np.swapaxes(L, -1, -2).copy()
+            style = "dense" if ok else "upper"
+        extra = rng.choice([0, 0, 1, 2]) if loc != "info_vec" else rng.choice([0, 0, 1])
+        Pm = np.concatenate([S, dy_array(rng, bshape + (dim, extra))], -1) if extra else S
         if loc != "info_vec" and rng.random() < 0.3 and dim >= 2:
             Pm = Pm[..., :, : dim - 1]      # rank-deficient prec_sqrt is fine with mean / white_vec
         kw["prec_sqrt"] = Pm
@@ -448,7 +466,8 @@ def make_from_params(rng, order):
     exact = (loc in ("mean", "white_vec") and scale == "prec_sqrt" and not rank > 2 * dim)
     return g, spec, exact, dict(op="construct", loc=loc, scale=scale, order=[list(map(str, o)) for o in order],
                                 params={k: v.tolist() for k, v in kw.items()},
-                                dtypes={k: str(v.dtype) for k, v in kw2.items()})
+                                dtypes={k: str(v.dtype) for k, v in kw2.items()},
+                                factor=(style if scale == "prec_sqrt" else None))
 
 
 # ----------------------------------------------------------------------------------------------
@@ -1403,6 +1422,8 @@ def run_case(env, case_seed, tier, counts, stream="clean", sibling=False):
         return 0, None, None
     history.append(desc)
     counts("start:" + desc["op"] + (":" + desc["loc"] + "+" + desc["scale"] if desc["op"] == "construct" else ""))
+    if desc.get("factor"):
+        counts("construct:prec_sqrt-factor:" + desc["factor"])
     step0 = dict(spec=spec, desc=desc, model=None)
     nsteps = 0
     key = [case_seed]
@@ -1756,6 +1777,45 @@ def rules_case(env, case_seed, tier, counts):
     return n, (case_seed, "rules"), dict(case_seed=case_seed, ops=["compress_gaussians", "sub"])
 
 
+def triangular_ops_stream(ctx, n):
+    """The linear-algebra primitives the Gaussian constructor relies on, called as the Gaussian code calls them (with
+    genuinely triangular Cholesky-like factors): triangular_solve (plain / transpose / upper), triangular_inv,
+    cholesky_solve, against exact Fraction inverses (rtol 1e-9)."""
+    rng = ctx.rng
+    for _ in range(n):
+        dim = rng.choice([1, 2, 3])
+        L = gen_tril(rng, dim, ())
+        x = dy_array(rng, (dim, rng.choice([1, 2])))
+        Lf = [[F(float(v)) for v in row] for row in L]
+        Li = np.array([[float(v) for v in row] for row in mat_inv(Lf)])
+        want = {
+            "solve": (lambda: ops.triangular_solve(x, L), Li @ x),
+            "solve-transpose": (lambda: ops.triangular_solve(x, L, transpose=True), Li.T @ x),
+            "solve-upper": (lambda: ops.triangular_solve(x, L.T.copy(), upper=True), Li.T @ x),
+            "inv": (lambda: ops.triangular_inv(L), Li),
+            "inv-upper": (lambda: ops.triangular_inv(L.T.copy(), upper=True), Li.T),
+            "cholesky_solve": (lambda: ops.cholesky_solve(x, L), Li.T @ Li @ x),
+        }
+        for name, (thunk, exp) in want.items():
+            try:
+                got = np.asarray(thunk())
+            except DECLINE_ERRORS as e:
+                ctx.count(f"triangular-ops:{name}:declined:{type(e).__name__}")
+                continue
+            if got.shape != exp.shape or not np.allclose(got, exp, rtol=1e-9, atol=1e-9):
+                ctx.fail("input", f"C12.ops-{name}", witness=dict(L=L.tolist(), x=x.tolist()), expected=str(exp.tolist()),
+                         got=str(got.tolist()),
+                         python=("import numpy as np\nimport funsor\nfunsor.set_backend('numpy')\nimport funsor.ops as ops\n"
+                                 f"L = np.array({L.tolist()!r}); x = np.array({x.tolist()!r})\n"
+                                 "Li = np.linalg.inv(L)\n"
+                                 "FAILS = not (np.allclose(ops.triangular_solve(x, L), Li @ x) and "
+                                 "np.allclose(ops.triangular_solve(x, L, transpose=True), Li.T @ x) and "
+                                 "np.allclose(ops.triangular_inv(L), Li) and "
+                                 "np.allclose(ops.cholesky_solve(x, L), Li.T @ Li @ x))\n"))
+        ctx.case(nontrivial_key=("triangular-ops", L.tobytes(), x.tobytes()) if dim > 1 else None)
+    ctx.count("triangular-ops:cases", n)
+
+
 def history_stream(ctx, env, n):
     """History-independence: a chain A, then a sibling chain B over the same ordered input names with the block
     sizes rotated, then A again — every step checked against its spec as usual, and the second run of A must
@@ -1879,7 +1939,7 @@ def _correspond(ctx, use_driver=True, volume=None):
                 "chained through a lazy first step.  Non-trivial = at least one operation checked after construction; "
                 "distinct by seed and operation sequence.")
     env = Env(ctx, use_driver)
-    n = volume or (700 if ctx.tier == "quick" else 10000)
+    n = volume or (600 if ctx.tier == "quick" else 10000)
     if env.use_driver:
         offsets_stream(ctx, 60 if ctx.tier == "quick" else 600)
     for _ in range(n):
@@ -1901,6 +1961,7 @@ def _correspond(ctx, use_driver=True, volume=None):
             continue
         if nsteps:
             ctx.case(sample=sample, nontrivial_key=key)
+    triangular_ops_stream(ctx, 30 if ctx.tier == "quick" else 300)
     history_stream(ctx, env, 40 if ctx.tier == "quick" else 800)
     for _ in range(30 if ctx.tier == "quick" else 500):
         seed = ctx.rng.getrandbits(48)
